@@ -1275,6 +1275,38 @@ def cond_fold(prog: Program) -> RuleResult:
     return r
 
 
+def hv_ident(prog: Program) -> RuleResult:
+    """Everything that caches, de-duplicates or binds values does it by the identifier of the HashedValue: the domain cache of a variable is a
+    dictionary keyed by it.  Two distinct elements of a domain must therefore never share an identifier.  `id(value)` (and an identifier the
+    library assigned itself, `_id_`) is injective over the objects that are alive; a *hash* is not (hash(-1) == hash(-2), n and n + 2**61 - 1
+    collide): the second of two such numbers overwrites the first in the cache and is never delivered."""
+    from ..model import walk_local
+    from ..astutil import site, is_self_attr
+
+    r = RuleResult("HV-IDENT", "the identifier of a hashed value is injective over distinct live values", floor=1)
+    hv = prog.cls("hashed_data.HashedValue")
+    n = 0
+    for f in sorted(hv.methods.values(), key=lambda x: x.qual):
+        stores = [x for x in walk_local(f.node) if isinstance(x, ast.Assign) and any(is_self_attr(t, "id_") for t in x.targets)]
+        if not stores:
+            continue
+        bad = None
+        for x in stores:
+            n += 1
+            v = x.value
+            ok = (isinstance(v, ast.Call) and isinstance(v.func, ast.Name) and v.func.id == "id" and len(v.args) == 1) \
+                or (isinstance(v, ast.Attribute) and v.attr in ("_id_", "id_")) or (isinstance(v, ast.Name) and v.id in f.params)
+            if not ok:
+                bad = bad or x
+        r.check(bad is None, f"{f.short}#identifier-by-identity", site(f, bad) if bad is not None else site(f, stores[0]), src(bad if bad is not None else stores[0])[:90],
+                "the identifier is id(value), an identifier the library assigned, or the one given",
+                f"`{src(bad)[:80] if bad is not None else ''}` derives the identifier from something that is not injective (a hash, a value): two different elements of a domain can get the same "
+                f"identifier, and the domain cache - keyed by it - keeps one of them (entity(x, x < 1) over [3, -1, 0, -2] misses -2)")
+    if n < 1:
+        raise AnalysisError("HV-IDENT: HashedValue no longer assigns id_")
+    return r
+
+
 def _ep_bound(prog):
     # a value that is bound already is used as it is, whatever it is: re-enumerating it (a falsy element of a flattened collection taken
     # for 'not bound') gives rows that are no consistent assignment
@@ -1308,4 +1340,4 @@ def run(prog: Program, tier: str) -> List[RuleResult]:
     from .c03 import domain_cache
 
     _cache.clear()
-    return [guard(lambda: ep_thread(prog)), guard(lambda: ep_neg(prog)), guard(lambda: ep_filter(prog)), guard(lambda: ep_selected(prog)), guard(lambda: ep_union_pass(prog)), guard(lambda: ep_operand(prog)), guard(lambda: domain_cache(prog)), guard(lambda: ep_universal(prog)), guard(lambda: ep_empty(prog)), guard(lambda: ep_quant(prog)), guard(lambda: _ep_bound(prog)), guard(lambda: cmp_apply(prog)), guard(lambda: _live_iter(prog)), guard(lambda: _hv_truth(prog)), guard(lambda: cond_fold(prog)), guard(lambda: _domain_given(prog))]
+    return [guard(lambda: ep_thread(prog)), guard(lambda: ep_neg(prog)), guard(lambda: ep_filter(prog)), guard(lambda: ep_selected(prog)), guard(lambda: ep_union_pass(prog)), guard(lambda: ep_operand(prog)), guard(lambda: domain_cache(prog)), guard(lambda: ep_universal(prog)), guard(lambda: ep_empty(prog)), guard(lambda: ep_quant(prog)), guard(lambda: _ep_bound(prog)), guard(lambda: cmp_apply(prog)), guard(lambda: _live_iter(prog)), guard(lambda: _hv_truth(prog)), guard(lambda: cond_fold(prog)), guard(lambda: _domain_given(prog)), guard(lambda: hv_ident(prog))]
